@@ -124,6 +124,9 @@ func (f *Flow) settle(who string, c *Consumer, in abs, ctl any) error {
 				continue // endpoint gone
 			}
 			if err := f.h.waitEndpoint(); err != nil {
+				if !env.To.IsRunning() {
+					continue
+				}
 				return err
 			}
 		case "pc":
@@ -147,13 +150,29 @@ func (f *Flow) handle(target *actor.PID, who string, c *Consumer, sender *actor.
 		err = actor.Tell(f.h.ctx, target, msg)
 	}
 	if err != nil {
+		f.lost(who, c, in)
 		return nil // the target is gone: the message is lost
 	}
-	ev, err := f.h.waitRecv(func(ev recvEvent) bool { return ev.self.Equals(target) && ev.msg == msg })
+	ev, err := f.h.waitRecvFrom(target, func(ev recvEvent) bool { return ev.self.Equals(target) && ev.msg == msg })
+	if err == errGone {
+		f.lost(who, c, in)
+		return nil
+	}
 	if err != nil {
 		return err
 	}
 	return f.settle(who, c, in, ev.ctl)
+}
+
+// lost: a controller that stopped (terminal failure, endpoint shut down) receives nothing any more
+func (f *Flow) lost(who string, c *Consumer, in abs) {
+	w := ""
+	if c != nil {
+		w = c.name
+	}
+	f.raw = nil
+	f.stepOut = nil
+	f.emit(abs{"e": "lost", "who": who, "w": w, "m": in})
 }
 
 func take(bag *[]*Envelope, m abs) *Envelope {
